@@ -55,7 +55,9 @@ def scratch_root() -> str:
     """Per-process scratch directory (tmpfs if available), removed at exit."""
     global _SCRATCH
     if _SCRATCH is None or _SCRATCH[0] != os.getpid():
-        base = "/dev/shm" if os.path.isdir("/dev/shm") else tempfile.gettempdir()
+        base = os.environ.get("YAWVERIF_SESSION")
+        if not base or not os.path.isdir(base):
+            base = "/dev/shm" if os.path.isdir("/dev/shm") else tempfile.gettempdir()
         path = tempfile.mkdtemp(prefix="yawverif_", dir=base)
         _SCRATCH = (os.getpid(), path)
         atexit.register(shutil.rmtree, path, ignore_errors=True)
@@ -202,6 +204,12 @@ def main(argv=None) -> int:
     seed = int(os.environ.get("VERIF_SEED", "0") or 0)
     modname = f"checks.{prop.lower()}"
     mod = importlib.import_module(modname)
+
+    # one session directory holds the scratch roots of this process and of all its workers (workers ended by the pool
+    # do not run their exit handlers): it is removed as a whole when this process exits
+    session = tempfile.mkdtemp(prefix="yawverif_s", dir="/dev/shm" if os.path.isdir("/dev/shm") else tempfile.gettempdir())
+    os.environ["YAWVERIF_SESSION"] = session
+    atexit.register(shutil.rmtree, session, ignore_errors=True)
 
     if args.replay:
         return replay(mod, prop, args.replay)
